@@ -1,6 +1,9 @@
 package generator
 
 import (
+	"crypto/sha256"
+	"encoding/hex"
+	"hash"
 	"io"
 	"strconv"
 	"strings"
@@ -11,8 +14,9 @@ import (
 
 func NewRangeWriter(w io.Writer) *RangeWriter {
 	return &RangeWriter{
-		w:       w,
-		builder: &strings.Builder{},
+		w:        w,
+		builder:  &strings.Builder{},
+		skeleton: sha256.New(),
 	}
 }
 
@@ -25,6 +29,16 @@ type RangeWriter struct {
 	index    int
 	builder  *strings.Builder
 	Literals []string
+
+	// skeleton hashes everything that is written apart from the contents of the string
+	// literals, i.e. the Go code that has to be recompiled if it changes.
+	skeleton hash.Hash
+}
+
+// SkeletonHash returns a hash of the generated Go code, excluding the contents of the
+// string literals.
+func (rw *RangeWriter) SkeletonHash() string {
+	return hex.EncodeToString(rw.skeleton.Sum(nil))
 }
 
 func (rw *RangeWriter) closeLiteral(indent int) (r parser.Range, err error) {
@@ -36,14 +50,17 @@ func (rw *RangeWriter) closeLiteral(indent int) (r parser.Range, err error) {
 	sb.WriteString(`templ_7745c5c3_Err = templruntime.WriteString(templ_7745c5c3_Buffer, `)
 	sb.WriteString(strconv.Itoa(rw.index))
 	sb.WriteString(`, "`)
+	// The literal's contents are not part of the code skeleton.
+	rw.skeleton.Write([]byte(sb.String()))
 	literal := rw.builder.String()
 	rw.Literals = append(rw.Literals, literal)
 	sb.WriteString(literal)
 	rw.builder.Reset()
+	rw.skeleton.Write([]byte(`")` + "\n"))
 	sb.WriteString(`")`)
 	sb.WriteString("\n")
 
-	if _, err := rw.write(sb.String()); err != nil {
+	if _, err := rw.writeUnhashed(sb.String()); err != nil {
 		return r, err
 	}
 
@@ -80,6 +97,11 @@ func (rw *RangeWriter) Write(s string) (r parser.Range, err error) {
 }
 
 func (rw *RangeWriter) write(s string) (r parser.Range, err error) {
+	rw.skeleton.Write([]byte(s))
+	return rw.writeUnhashed(s)
+}
+
+func (rw *RangeWriter) writeUnhashed(s string) (r parser.Range, err error) {
 	r.From = parser.Position{
 		Index: rw.Current.Index,
 		Line:  rw.Current.Line,
